@@ -3,6 +3,7 @@
 
 pub mod arch;
 pub mod binfam;
+pub mod c02judge;
 pub mod fsx;
 pub mod glue;
 pub mod lzfam;
